@@ -18,10 +18,12 @@ import Bmc.Proofs.GenEnc.Message
 import Bmc.Proofs.GenEnc.GetPowerReadingReq
 import Bmc.Proofs.GenEnc.V2Session
 import Bmc.Proofs.GenEnc.AES128CBC
+import Bmc.Proofs.GenDec.V2Session
 import Bmc.Proofs.GenDec.AES128CBC
 import Bmc.Proofs.GenDec.Message
 import Bmc.Proofs.GenDec.V1Session
 import Bmc.Proofs.GenDec.RAKPMessage1
+import Bmc.Proofs.EndToEnd.RoundTripC08
 #print axioms Bmc.Proofs.C08.message_roundtrip
 #print axioms Bmc.Proofs.C08.message_reencode
 #print axioms Bmc.Proofs.C08.v2_roundtrip
@@ -59,7 +61,13 @@ import Bmc.Proofs.GenDec.RAKPMessage1
 #print axioms Bmc.Proofs.GenEnc.AES128CBC_enc_param
 #print axioms Bmc.Proofs.GenEnc.AES128CBC_enc_eq
 #print axioms Bmc.Proofs.GenEnc.AES128CBC_enc_randErr
+#print axioms Bmc.Proofs.GenDec.V2Session_gen_eq
 #print axioms Bmc.Proofs.GenDec.AES128CBC_gen_eq
 #print axioms Bmc.Proofs.GenDec.Message_gen_eq
 #print axioms Bmc.Proofs.GenDec.V1Session_gen_eq
 #print axioms Bmc.Proofs.GenDec.RAKPMessage1_gen_eq
+#print axioms Bmc.Proofs.EndToEnd.generated_message_roundtrip
+#print axioms Bmc.Proofs.EndToEnd.generated_v1_roundtrip
+#print axioms Bmc.Proofs.EndToEnd.generated_v2_roundtrip
+#print axioms Bmc.Proofs.EndToEnd.generated_aes_roundtrip
+#print axioms Bmc.Proofs.EndToEnd.generated_rakp1_roundtrip
